@@ -47,6 +47,7 @@ import DDProofs.DynSift
 import DDProofs.DynCube
 import DDProofs.DynExpr
 import DDProofs.DynLoad
+import DDProofs.DynImageKeys
 import DDProps.Tables
 namespace DD
 
@@ -502,17 +503,237 @@ example : PickleWF fileBA ∧ Inv { mgrAB with lastLen := some 1, fireIn := some
   have hI := mgrAB_nodeFree.inv
   exact ⟨fileBA_wf, ⟨hI.wf, hI.pred, hI.freeGe, hI.free, hI.refOne, hI.refDom, hI.cache⟩, mgrAB_bij,
     rfl, by decide +kernel⟩
+/-! ## `image` / `preimage` (the repair of finding F4c)
+
+The module-level functions turn `qvars` and `rename` into variable NAMES (`_image_args_by_name`)
+and run the bodies `_image_of` / `_preimage_of` under `_try_to_reorder`: a request raised by a
+nested `ite` / `find_or_add` propagates to that outermost decorator, sifting runs, and the body is
+retried with the names mapped to the new levels.  Both theorems are instances of
+`C09_decorator_transparent`. -/
+
+/-- C09: `_image` (the recursion behind `image` and `preimage`) inside a context (or with requests
+disabled): it returns a reference or is aborted by a request having only added nodes — whatever
+the level maps do to the order (`ImgOKs`: no monotonicity asked); the reference denotes
+`rename_U (Q qvars. u ∧ rename_V v)` under any condition `C` that makes `vmap` increasing on the
+support of `v` (`C = True` for `image`) -/
+theorem C09_imageF_abort_aware (umap vmap : Option (List (Int × Int))) (ubad vbad : List Int)
+    (Q : List Nat) (fa : Bool) (rU rV : Nat → Nat) (S : Nat → Prop) (C : Prop)
+    (f : Nat) (m : Mgr) (u v : Int) (cache : Std.HashMap (Int × Int) Int)
+    (hP : ImgOKs umap vmap ubad vbad Q rU rV S m.nvars) (hmono : C → MonoOn rV S)
+    (hI : Inv m) (hq : Quiet m) (hu : m.tbl.Mem u) (hv : m.tbl.Mem v)
+    (hS : ∀ j, InSupp m.tbl v j → S j) (hmemo : IMemoC C fa Q rU rV m.tbl cache)
+    (hf : 2 * m.nvars + 1 ≤ f + m.tbl.levelOf u + m.tbl.levelOf v) :
+    Outcome2 m (fun r c m' => IMemoC C fa Q rU rV m'.tbl c ∧ IPostC C fa Q rU rV m'.tbl u v r)
+      (imageF umap vmap ubad vbad Q fa f u v cache m) :=
+  imageF_out umap vmap ubad vbad Q fa rU rV S m.nvars C hP hmono f m u v cache hI hq rfl hu hv hS
+    hmemo hf
+
+/-- non-vacuity (`C09_imageF_abort_aware`): `image`'s use on `exDyn` inside a context -/
+example : ImgOKs (some [(1, 0)]) none [] [] [0] (renOf [(1, 0)]) id (fun j => j < 2)
+      ({ exDyn with ctx := true } : Mgr).nvars ∧ Quiet { exDyn with ctx := true } ∧
+    (True → MonoOn id (fun j => j < 2)) := by
+  have hn : ({ exDyn with ctx := true } : Mgr).nvars = 2 := by decide
+  refine ⟨⟨?_, fun j hj => ⟨rfl, by rw [hn]; exact hj⟩, rfl, fun _ _ _ => rfl, fun _ _ => rfl⟩,
+    Or.inl rfl, fun _ _ _ _ _ h => h⟩
+  intro z hz hq
+  rw [hn] at hz ⊢
+  have : z = 1 := by
+    match z, hz with
+    | 0, _ => simp at hq
+    | 1, _ => rfl
+  subst this
+  decide
+
+/-- C09 `image(trans, source, rename, qvars, bdd, forall)`, renaming and quantified variables given
+by declared NAMES, operands held by the user, under the code's own preconditions stated by name
+(`ImagePre`: pairwise distinct keys, no key is a value, every target quantified or outside the
+supports of both operands): whether or not a reordering request is served — at whichever
+`find_or_add` — the call returns normally; the result is the C13 image
+`rename(Q qvars. trans ∧ source)` of the operands AS THEY WERE, by name (`ImageDoc`); `DynInv`
+again (invariant, order maps, counts exact for the same ledger, flag cleared); reordering stays
+enabled; every held reference keeps its meaning by name.  No condition on the variable order
+(C13: `image` is correct for any order), so none on what sifting does. -/
+theorem C09_image_transparent (ext : Nat → Nat) (m : Mgr) (hD : DynInv ext m)
+    (trans source : Int) (ht : HeldX ext trans) (hs : HeldX ext source) (fa : Bool)
+    (l : List (String × String)) (qs : List String) (hpre : ImagePre trans source l qs m.tbl) :
+    ∃ r m', image trans source (l.map fun p => (Key.name p.1, Key.name p.2)) (qs.map Key.name)
+        fa m = (.ok r, m') ∧ DynPostG ext (ImageDoc fa qs l trans source) m r m' :=
+  image_transparent ext (siftContract ext) m hD trans source ht hs fa l qs hpre
+
+/-- the constant TRUE depends on no variable -/
+theorem not_dependsOnN_one (t : Tbl) (s : String) : ¬ dependsOnN t 1 s := by
+  rintro ⟨σ, hne⟩
+  exact hne (by unfold denN; rw [den_one, den_one])
+
+/-- non-vacuity (`C09_image_transparent`): on `exDyn` (order `a < b`, node 4 = `a ∧ b` held,
+reordering enabled, a request due at the next `find_or_add`): `image(a ∧ b, TRUE, {b: a}, {a})` -/
+example : ImagePre 4 1 [("b", "a")] ["a"] exDyn.tbl ∧ HeldX exExt 4 ∧ HeldX exExt 1 ∧
+    ∃ r m', image 4 1 [(.name "b", .name "a")] [.name "a"] false exDyn = (.ok r, m') ∧
+      m'.lastLen.isSome = true := by
+  have hpre : ImagePre 4 1 [("b", "a")] ["a"] exDyn.tbl := by
+    refine ⟨by simp, ?_, ?_, ?_, ?_⟩
+    · intro p hp
+      simp only [List.mem_cons, List.not_mem_nil, or_false] at hp
+      subst hp
+      exact ⟨by decide, by decide⟩
+    · intro s hs
+      simp only [List.mem_cons, List.not_mem_nil, or_false] at hs
+      subst hs
+      decide
+    · intro p p' hp hp'
+      simp only [List.mem_cons, List.not_mem_nil, or_false] at hp hp'
+      subst hp hp'
+      decide
+    · intro p hp
+      simp only [List.mem_cons, List.not_mem_nil, or_false] at hp
+      subst hp
+      exact Or.inl (by simp)
+  refine ⟨hpre, exExt_held4, Or.inl rfl, ?_⟩
+  obtain ⟨r, m', he, hp⟩ := C09_image_transparent exExt exDyn exDyn_dynInv 4 1 exExt_held4
+    (Or.inl rfl) false [("b", "a")] ["a"] hpre
+  exact ⟨r, m', he, by rw [hp.enabled]; rfl⟩
+
+/-- C09 `preimage(trans, target, rename, qvars, bdd, forall)`, arguments by declared NAMES,
+operands held, under the part of the preconditions of `C13_preimage_partial` that can be said by
+name (`PreimagePreN`: pairwise distinct keys, no key is a value, no two keys with the same value,
+the target independent of every value): whether or not a request is served the call returns
+normally with the frame of every decorated operation (`DynInv`, counts, reordering enabled, held
+references); the result is a reference of the manager and — PROVIDED every renamed variable is a
+neighbour of its partner in the order in which the manager is LEFT (`AdjN m'.tbl`: the order of
+the call when no request was served, the order sifting chose otherwise) — it denotes
+`Q qvars. trans ∧ rename(target)` of the operands as they were (`PreimageDoc`).  The proviso
+cannot be dropped: sifting moves single variables, and `_image` is only correct for `preimage`
+when the renaming is increasing on the support of the target (C13; findings F5/F5b are about the
+same recursion). -/
+theorem C09_preimage_transparent (ext : Nat → Nat) (m : Mgr) (hD : DynInv ext m)
+    (trans target : Int) (ht : HeldX ext trans) (hs : HeldX ext target) (fa : Bool)
+    (l : List (String × String)) (qs : List String) (hpre : PreimagePreN target l qs m.tbl) :
+    ∃ r m', preimage trans target (l.map fun p => (Key.name p.1, Key.name p.2)) (qs.map Key.name)
+        fa m = (.ok r, m') ∧ DynPostG ext (PreimageDoc fa qs l trans target) m r m' :=
+  preimage_transparent ext (siftContract ext) m hD trans target ht hs fa l qs hpre
+
+/-- non-vacuity (`C09_preimage_transparent`): on `exDyn`, `preimage(a ∧ b, TRUE, {a: b}, {b})`;
+with two variables the partners are neighbours in every order, so the documented meaning holds
+whatever sifting did -/
+example : PreimagePreN 1 [("a", "b")] ["b"] exDyn.tbl ∧ HeldX exExt 4 ∧ HeldX exExt 1 ∧
+    ∃ r m', preimage 4 1 [(.name "a", .name "b")] [.name "b"] false exDyn = (.ok r, m') ∧
+      m'.lastLen.isSome = true ∧ m'.tbl.Mem r := by
+  have hpre : PreimagePreN 1 [("a", "b")] ["b"] exDyn.tbl := by
+    refine ⟨by simp, ?_, ?_, ?_, ?_, ?_⟩
+    · intro p hp
+      simp only [List.mem_cons, List.not_mem_nil, or_false] at hp
+      subst hp
+      exact ⟨by decide, by decide⟩
+    · intro s hs
+      simp only [List.mem_cons, List.not_mem_nil, or_false] at hs
+      subst hs
+      decide
+    · intro p p' hp hp'
+      simp only [List.mem_cons, List.not_mem_nil, or_false] at hp hp'
+      subst hp hp'
+      decide
+    · intro p p' hp hp' _
+      simp only [List.mem_cons, List.not_mem_nil, or_false] at hp hp'
+      rw [hp, hp']
+    · intro p _
+      exact not_dependsOnN_one _ _
+  refine ⟨hpre, exExt_held4, Or.inl rfl, ?_⟩
+  obtain ⟨r, m', he, hp⟩ := C09_preimage_transparent exExt exDyn exDyn_dynInv 4 1 exExt_held4
+    (Or.inl rfl) false [("a", "b")] ["b"] hpre
+  exact ⟨r, m', he, by rw [hp.enabled]; rfl, hp.doc.1⟩
+
+/-- C09 `image` with the arguments of `C13_image`: renaming and `qvars` given by ANY keys (names
+or LEVELS) that resolve, at the time of the call, to declared levels; the code's own checks pass
+(no key is a value; every target quantified or outside the supports).  The wrapper turns the keys
+into the names at these levels before anything can reorder, so the result is the documented image
+stated with the names the levels had when the call was made (`namePairs`, `nameOf`). -/
+theorem C09_image_keys_transparent (ext : Nat → Nat) (m : Mgr) (hD : DynInv ext m)
+    (trans source : Int) (ht : HeldX ext trans) (hs : HeldX ext source)
+    (fa : Bool) (rn : List (Key × Key)) (qvars : List Key) (q : List Nat)
+    (hq : mapToLevelE m.tbl qvars = .ok q)
+    (hov : renameOverlap (resolveRename m.tbl rn) = false)
+    (hnl : renameNonLevel (resolveRename m.tbl rn) = false)
+    (hlv : ∀ p, p ∈ intPairs (resolveRename m.tbl rn) →
+      0 ≤ p.1 ∧ p.1 < (m.nvars : Int) ∧ 0 ≤ p.2 ∧ p.2 < (m.nvars : Int))
+    (htg : ∀ p, p ∈ intPairs (resolveRename m.tbl rn) → ∀ l : Nat, p.2 = (l : Int) →
+      l ∈ q ∨ (¬ dependsOn m.tbl trans l ∧ ¬ dependsOn m.tbl source l)) :
+    ∃ r m', image trans source rn qvars fa m = (.ok r, m') ∧
+      DynPostG ext (ImageDoc fa (q.map m.tbl.nameOf)
+        (namePairs m.tbl (intPairs (resolveRename m.tbl rn))) trans source) m r m' :=
+  image_keys_transparent ext (siftContract ext) m hD trans source ht hs fa rn qvars q hq hov hnl
+    hlv htg
+
+/-- C09 `preimage` with the arguments of `C13_preimage_partial` (any keys resolving to declared
+levels; no key is a value; no two keys with the same value; the target independent of every
+value) — adjacency is not asked of the order of the call but, in the conclusion, of the order the
+manager is left in (`PreimageDoc`). -/
+theorem C09_preimage_keys_transparent (ext : Nat → Nat) (m : Mgr) (hD : DynInv ext m)
+    (trans target : Int) (ht : HeldX ext trans) (hs : HeldX ext target)
+    (fa : Bool) (rn : List (Key × Key)) (qvars : List Key) (q : List Nat)
+    (hq : mapToLevelE m.tbl qvars = .ok q)
+    (hov : renameOverlap (resolveRename m.tbl rn) = false)
+    (hnl : renameNonLevel (resolveRename m.tbl rn) = false)
+    (hlv : ∀ p, p ∈ intPairs (resolveRename m.tbl rn) →
+      0 ≤ p.1 ∧ p.1 < (m.nvars : Int) ∧ 0 ≤ p.2 ∧ p.2 < (m.nvars : Int))
+    (hinj : ∀ p p', p ∈ intPairs (resolveRename m.tbl rn) →
+      p' ∈ intPairs (resolveRename m.tbl rn) → p.2 = p'.2 → p.1 = p'.1)
+    (hind : ∀ p, p ∈ intPairs (resolveRename m.tbl rn) → ∀ l : Nat, p.2 = (l : Int) →
+      ¬ dependsOn m.tbl target l) :
+    ∃ r m', preimage trans target rn qvars fa m = (.ok r, m') ∧
+      DynPostG ext (PreimageDoc fa (q.map m.tbl.nameOf)
+        (namePairs m.tbl (intPairs (resolveRename m.tbl rn))) trans target) m r m' :=
+  preimage_keys_transparent ext (siftContract ext) m hD trans target ht hs fa rn qvars q hq hov
+    hnl hlv hinj hind
+
+/-- non-vacuity (`C09_image_keys_transparent`, `C09_preimage_keys_transparent`, keys as LEVELS):
+on `exDyn` (`a` at level 0, `b` at level 1): `image(a ∧ b, TRUE, {1: 0}, {0})` and
+`preimage(a ∧ b, TRUE, {0: 1}, {1})` -/
+example : (∃ r m', image 4 1 [(.lvl 1, .lvl 0)] [.lvl 0] false exDyn = (.ok r, m') ∧
+      DynPostG exExt (ImageDoc false ["a"] [("b", "a")] 4 1) exDyn r m') ∧
+    (∃ r m', preimage 4 1 [(.lvl 0, .lvl 1)] [.lvl 1] false exDyn = (.ok r, m') ∧
+      DynPostG exExt (PreimageDoc false ["b"] [("a", "b")] 4 1) exDyn r m') := by
+  have hn : exDyn.nvars = 2 := by decide
+  have h0 : exDyn.tbl.nameOf 0 = "a" := by decide
+  have h1 : exDyn.tbl.nameOf 1 = "b" := by decide
+  have hnd : ∀ l, ¬ dependsOn exDyn.tbl 1 l := by
+    rintro l ⟨a, hne⟩
+    exact hne (by rw [den_one, den_one])
+  constructor
+  · obtain ⟨hres, hip⟩ := intPairs_resolveRename_levels exDyn.tbl [(1, 0)] (by simp)
+    simp only [List.map] at hres hip
+    have := C09_image_keys_transparent exExt exDyn exDyn_dynInv 4 1 exExt_held4 (Or.inl rfl) false
+      [(.lvl 1, .lvl 0)] [.lvl 0] [0] (by rfl) (by rw [hres]; decide) (by rw [hres]; decide)
+      (by rw [hres, hip]; intro p hp; simp at hp; subst hp; rw [hn]; decide)
+      (by
+        rw [hres, hip]; intro p hp l hl; simp at hp; subst hp
+        simp only at hl
+        left
+        have : l = 0 := by omega
+        subst this; simp)
+    rw [hres, hip] at this
+    simpa [namePairs, h0, h1] using this
+  · obtain ⟨hres, hip⟩ := intPairs_resolveRename_levels exDyn.tbl [(0, 1)] (by simp)
+    simp only [List.map] at hres hip
+    have := C09_preimage_keys_transparent exExt exDyn exDyn_dynInv 4 1 exExt_held4 (Or.inl rfl)
+      false [(.lvl 0, .lvl 1)] [.lvl 1] [1] (by rfl) (by rw [hres]; decide)
+      (by rw [hres]; decide)
+      (by rw [hres, hip]; intro p hp; simp at hp; subst hp; rw [hn]; decide)
+      (by rw [hres, hip]; intro p p' hp hp' _; simp at hp hp'; rw [hp, hp'])
+      (by rw [hres, hip]; intro p hp l _; exact hnd l)
+    rw [hres, hip] at this
+    simpa [namePairs, h0, h1] using this
 
 /-! ## what is not covered
 
 Proved above for the decorated entry points of the model: `ite`, `apply` (binary propositional
 aliases, `ite`, quantifier aliases), `var`, `quantify`/`exist`/`forall`, `let` in its three forms
 (`cofactor`, `compose`, `rename`), `cube`, `copy_bdd` into the manager, `add_expr` (every construct
-of the grammar), the chaining of calls with `incref` in between; `load` (pickle) never reorders.
-NOT covered by a theorem: `load_json` (its reader is correspondence-only in C12 as well; it calls
-the decorated `var` / `ite` of `dd.autoref`, whose wrappers hold every operand), DDDMP `load` (C16),
-and the undecorated `image`, `preimage`, `autoref.BDD.find_or_add`, for which the property is FALSE
-of the code (known findings F4a/F4c).  Those are decided by correspondence at every trigger
+of the grammar), `image`, `preimage` (arguments by name or by level; `preimage`'s meaning under the
+proviso that the partners are still neighbours in the final order), the chaining of calls with
+`incref` in between; `load` (pickle) never reorders.
+NOT covered by a theorem: `load_json` (it calls the decorated `var` / `ite` of `dd.autoref`, whose
+wrappers hold every operand), DDDMP `load` (C16), and `autoref.BDD.find_or_add` (outside a context
+it never requests a reordering, F4a).  Those are decided by correspondence at every trigger
 position. -/
 
 end DD
